@@ -173,7 +173,18 @@ func RunCheck(o CheckOpts) int {
 						return
 					}
 				}
-				// abnormal end: find the case from the journal
+				// abnormal end: keep what the dead worker had checkpointed, then find the case from the journal
+				ckpt := st.skip
+				if b, err := os.ReadFile(out + ".partial"); err == nil {
+					var r Result
+					if json.Unmarshal(b, &r) == nil {
+						mu.Lock()
+						merged.Merge(&r)
+						mu.Unlock()
+						ckpt = r.CkptPos
+					}
+					os.Remove(out + ".partial")
+				}
 				jb, _ := os.ReadFile(jr)
 				f := strings.Fields(string(jb))
 				mu.Lock()
@@ -194,9 +205,11 @@ func RunCheck(o CheckOpts) int {
 					kind = "cpu-budget"
 				}
 				crashes = append(crashes, &Violation{Property: o.Prop, Clause: kind, Key: f[1], Stratum: f[1], Index: idx,
-					Seed: o.Seed, Tier: o.Tier, What: "worker died on this case: " + tail(se, 1500)})
-				// The cases the dead worker had completed are lost with it; count conservatively.
-				merged.Counters["cases_lost_with_dead_worker"] += int64(pos - st.skip)
+					Seed: o.Seed, Tier: o.Tier, What: "worker died on this case: " + tail(se, 1500), Shard: sh, Of: nw, Pos: pos})
+				// cases completed after the last checkpoint are lost with the dead worker; count conservatively
+				if pos > ckpt {
+					merged.Counters["cases_lost_with_dead_worker"] += int64(pos - ckpt)
+				}
 				mu.Unlock()
 				st.skip = pos + 1
 				st.restarts++
@@ -328,9 +341,29 @@ func matchFinding(fs []Finding, v *Violation) *Finding {
 
 // ReplayCase re-runs the single case of v in a fresh process; true if the same class is observed again.
 func ReplayCase(exe string, v *Violation) bool {
-	args := []string{"worker", "-prop", v.Property, "-tier", v.Tier, "-seed", strconv.FormatInt(v.Seed, 10),
-		"-only", fmt.Sprintf("%s:%d", v.Stratum, v.Index)}
-	so, _, code, timedOut := runOne(exe, args, 10*time.Minute)
+	if replayArgs(exe, v, []string{"-only", fmt.Sprintf("%s:%d", v.Stratum, v.Index)}) {
+		return true
+	}
+	// not reproducible alone: the violation may depend on what the process did before this case
+	// (package-level state, earlier builders): re-run the worker's plan up to and including it
+	if v.Of > 0 {
+		tries := 1
+		if p := Lookup(v.Property); p != nil && p.Race {
+			tries = 4 // schedule-dependent
+		}
+		for i := 0; i < tries; i++ {
+			if replayArgs(exe, v, []string{"-shard", strconv.Itoa(v.Shard), "-of", strconv.Itoa(v.Of), "-upto", strconv.Itoa(v.Pos)}) {
+				v.NeedsHistory = true
+				return true
+			}
+		}
+	}
+	return false
+}
+
+func replayArgs(exe string, v *Violation, sel []string) bool {
+	args := append([]string{"worker", "-prop", v.Property, "-tier", v.Tier, "-seed", strconv.FormatInt(v.Seed, 10)}, sel...)
+	so, _, code, timedOut := runOne(exe, args, 20*time.Minute)
 	if v.Clause == "fatal" || v.Clause == "cpu-budget" {
 		if timedOut {
 			return false
